@@ -8,4 +8,6 @@ INVARIANT UnsettledOnlyInCorner
 INVARIANT CornerNeverAccepted
 INVARIANT SplitPrefixCovered
 INVARIANT SpecialsAccepted
+INVARIANT BackEndsAccepted
+INVARIANT AsDeliveredRejected
 CHECK_DEADLOCK TRUE
